@@ -493,7 +493,9 @@ func coqC20Case(c c20Case) string {
 		for id := range c.Books[m] {
 			ids = append(ids, id)
 		}
-		sort.Slice(ids, func(i, j int) bool { return len(ids[i]) < len(ids[j]) || (len(ids[i]) == len(ids[j]) && ids[i] < ids[j]) })
+		sort.Slice(ids, func(i, j int) bool {
+			return len(ids[i]) < len(ids[j]) || (len(ids[i]) == len(ids[j]) && ids[i] < ids[j])
+		})
 		for _, id := range ids {
 			es = append(es, fmt.Sprintf("(%s, %s)", id, addr(c.Books[m][id])))
 		}
